@@ -11,9 +11,17 @@ package parse
 
 // "the text after the first space is the value"
 //@ func Command
-//@   props C12 C19 C13
+//@   props C12 C19 C13 C14
+//@   pure
 //@   ensures !strings.Contains(value, " ") ==> result0 == value && result1 == ""
 //@   ensures strings.Contains(value, " ") ==> value == result0 + " " + result1 && !strings.Contains(result0, " ")
+
+// a line of a doc comment declares the context parameter named ContextName(l)
+//@ pred CmdName(l string) string = fst(Command(l))
+//@ pred CmdRest(l string) string = snd(Command(l))
+//@ pred IsContextLine(l string) bool = CmdName(l) == "context" && StringOK(CmdRest(l))
+//@ pred ContextName(l string) string = StringValue(CmdRest(l))
+//@ pred DeclaresContext(lines []string, k string) bool = exists j int :: 0 <= j && j < len(lines) && IsContextLine(lines[j]) && ContextName(lines[j]) == k
 
 //@ func Enum
 //@   props C12 C13
